@@ -2,7 +2,7 @@
 From Coq Require Import ZArith Reals List Sorted Lra Lia.
 From Flocq Require Import Core.Raux.
 From EG Require Import Num.Num Num.RNum Lib.Vec Model.TolMap Model.Curve Model.Resample.
-From EG Require Import Proofs.Curve Proofs.Resample.
+From EG Require Import Proofs.Curve Proofs.Portion Proofs.PortionMore Proofs.Resample Proofs.ResampleLen.
 Import ListNotations.
 Local Open Scope R_scope.
 
@@ -109,3 +109,22 @@ Proof.
   intros [|i] Hi; [|cbn in Hi; lia]. cbn [nth]. unfold vdist, vnorm. cbn [vsub vdot VO2 nsqrt RNum].
   apply sqrt_lt_R0. Proofs.VecR.vec_unfold. lra.
 Qed.
+
+(* resampling never lengthens: an open curve resampled at ascending positions is at most as long as the stretch of the
+   source between its first and last requested positions (chord <= arc by the triangle inequality; tolerance
+   de-duplication only removes vertices) *)
+Theorem C05_resample_not_longer : forall (V : @VOps RNum), VLaws V -> MetricLaws V -> forall (c : curve V), WF V c ->
+  forall ps r, cclosed V c = false -> StronglySorted Rle ps -> resample_at_positions V c ps = Ok r ->
+  clength V r <= last ps 0 - hd 0 ps.
+Proof. exact resample_not_longer. Qed.
+Print Assumptions C05_resample_not_longer.
+
+Theorem C05_chord_le_arc : forall (V : @VOps RNum), VLaws V -> MetricLaws V -> forall (c : curve V), WF V c ->
+  forall l0 l1 s e, at_length V c l0 = Some s -> at_length V c l1 = Some e -> l0 <= l1 ->
+  vdist V (st_point V e) (st_point V s) <= l1 - l0.
+Proof. exact chord_le_arc. Qed.
+Print Assumptions C05_chord_le_arc.
+
+Theorem C05_metric_laws : MetricLaws (@VO2 RNum) /\ MetricLaws (@VO3 RNum).
+Proof. split; [exact metric2 | exact metric3]. Qed.
+Print Assumptions C05_metric_laws.
